@@ -401,6 +401,7 @@ var stmtPool = []string{
 	"add_key(ts, \"2021-05-27 06:54:14.760 UTC\")\ndefault_time(ts)", "add_key(ts, \"1600000123\")\ndefault_time(ts)", "add_key(ts, \"2014-04-26 13:13:43 +0800\")\ndefault_time(ts, \"+8\")", "default_time(message)",
 	"x = len(message)\nadd_key(x)", "if n == 3 { add_key(three, true) } else { add_key(three, false) }", "for i in [1, 2] { add_key(last, i) }",
 	"add_key(time, 1600000000123456789)", "add_key(time, \"not an int\")", "rename(time, n)", "cast(time, \"int\")",
+	"add_key(ml, '''a\r\nb\r\n''')", "add_key(mlen, len(\"\"\"\r\n\r\n\"\"\"))", "if message == \"\"\"x\r\ny\"\"\" { add_key(crlf_match, true) }", "replace(message, '''\r\n''', \"|\")", "add_key(cr, \"a\\rb\")\r\nadd_key(after_crlf_line, 1)",
 	"add_key(nilkey, nil)", "nv = nil\nadd_key(nv)", "add_key(emptystr, \"\")", "add_key(zero, 0)", "add_key(f0, 0.0)", "add_key(no, false)", "add_key(m, {\"a\": nil})", "add_key(message, nil)", "set_tag(emptytag, \"\")",
 	"grok(_, \"%{WORD:w1} %{WORD:w2}\")", "grok(msg, \"%{WORD:first}\")", "printf(\"%v\\n\", message)", "exit()\nadd_key(never, 1)",
 }
@@ -421,7 +422,7 @@ var lpInputs = []string{
 	"ev time=5i\n",
 }
 
-var textInputs = []string{"hello world", "two words here", "", "  padded  ", "héllo wörld", "line1\nline2", "42"}
+var textInputs = []string{"x\r\ny", "line1\r\nline2\r\n", "hello world", "two words here", "", "  padded  ", "héllo wörld", "line1\nline2", "42"}
 
 func genCase(t *rapid.T) (*tcase, bool, []string) {
 	c := &tcase{Scripts: map[string]string{}, Other: map[string]string{}}
@@ -453,7 +454,24 @@ func genCase(t *rapid.T) (*tcase, bool, []string) {
 			sib := rapid.SampledFrom([]string{"sib", "sib.lib", "main.sib"}).Draw(t, "sibbase") + rapid.SampledFrom([]string{".p", ".ppl"}).Draw(t, "sibext")
 			c.Scripts[sib] = rapid.SampledFrom([]string{"add_key(from_sibling, 1)\nset_measurement(\"sibm\")", "set_tag(sibtag, \"s\")", "x = 1 + \"a\"", "exit()\nadd_key(never2, 1)", "add_key(ts2, \"1600000999\")\ndefault_time(ts2)"}).Draw(t, "sibbody")
 			at := rapid.IntRange(0, len(lines)).Draw(t, "useat")
-			lines = append(lines[:at:at], append([]string{fmt.Sprintf("use(%q)", sib)}, lines[at:]...)...)
+			// the use call in one of its valid spellings
+			useText := fmt.Sprintf("use(%q)", sib)
+			switch rapid.IntRange(0, 7).Draw(t, "usespelling") {
+			case 0:
+				useText = fmt.Sprintf("use (%q)", sib)
+			case 1:
+				useText = fmt.Sprintf("use(\n  %q\n)", sib)
+			case 2:
+				useText = "use(\"\"\"" + sib + "\"\"\")"
+			case 3:
+				useText = "use('" + sib + "')"
+			case 4:
+				useText = fmt.Sprintf("use(%q)", strings.Replace(sib, ".", "\\x2e", 1))
+				useText = strings.ReplaceAll(useText, "\\\\x2e", "\\x2e")
+			case 5:
+				useText = fmt.Sprintf("if true { use(%q) }", sib)
+			}
+			lines = append(lines[:at:at], append([]string{useText}, lines[at:]...)...)
 			nontrivial = true
 			labels = append(labels, "script/uses-sibling")
 		}
